@@ -149,6 +149,23 @@ def run_case(case):
         filled = fill_in_place(tmpl, params)
         out_f = pipeline.to_np_list(f(filled))
         add("template_filled_in_place")
+        # templates of separate builds are separate objects: a template obtained AFTER this one was
+        # filled is unfilled (NaN leaves), and writing into it leaves the filled one alone
+        import copy as _copy
+
+        snap = _copy.deepcopy({k: (dict(v) if isinstance(v, dict) and k != "shocks" else None) for k, v in filled.items() if k != "shocks"})
+        _, tmpl3 = pipeline.get_lcm_function(model, "solve")
+        add("templates_of_later_builds_checked")
+        dirty = [f"{k}.{p_}" for k, v in tmpl3.items() if isinstance(v, dict) and k != "shocks" for p_, x in v.items() if not (isinstance(x, float) and x != x) and not bool(np.all(np.isnan(np.asarray(x, dtype=float))))]
+        if dirty:
+            res["violations"].append({"key": "template_of_new_build_already_filled", "what": f"a template returned by a later get_lcm_function call on the same model already holds values at {dirty[:4]} (templates of separate builds share objects)"})
+        for k, v in tmpl3.items():
+            if isinstance(v, dict) and k != "shocks":
+                for p_ in v:
+                    v[p_] = -12345.678
+        changed = [f"{k}.{p_}" for k, v in snap.items() if v for p_, x in v.items() if filled[k][p_] != x]
+        if changed:
+            res["violations"].append({"key": "templates_share_objects", "what": f"writing into the template of a later build changed the already filled template at {changed[:4]}"})
         for t in range(ref.T):
             exp = ref.to_lcm_layout(sol["V"][t], t)
             if out_f[t].shape != exp.shape or maxdev(out_f[t], exp) > tol:
